@@ -22,11 +22,10 @@ EmitWitnesses ==
         \/ LET r == CHOOSE x \in bad : TRUE IN
            PrintT(ToJson(Append(hist, [op |-> "Read", dev |-> d, read |-> r])))
 
-\* one deviation at a time: MC_dev_<x>.cfg give the shortest history exhibiting deviation x
-DevA == {"AbsentReadsEmpty"}
-DevB == {"OrderedKeysPadded"}
-DevC == {"ReverseStartsAtEndBound"}
-DevD == {"NilEndSwapped"}
-DevE == {"ReverseIndexUnderflow"}
 DevNone == {}
+\* value sets
+V1  == {1}
+VE1 == {EMPTY, 1}
+V12 == {1, 2}
+VE12 == {EMPTY, 1, 2}
 =============================================================================
